@@ -1106,3 +1106,74 @@ func ruleWorkerEndsOnlyStoppedOrReported(c *Check, p *Prog, rule string, workers
 		c.Unk(rule, "anchor-count", "", "", "anchor lost: no worker that takes the error channel")
 	}
 }
+
+// ruleNoBatchUseAfterCommit (C11-R10 / C10-R11 / C15-R9 / C14-R10): typestate of a datastore batch.
+// A batch obtained from Batching.Batch is finished by Commit: what a later Put / Delete / Commit
+// on the same batch does is up to the backend — the in-memory datastore of the tests takes it,
+// the badger store of a node refuses every later write. A batch that is flushed part-way and
+// used on therefore loses, on a real node, everything after the first flush while the code
+// reports nothing but a log line.
+func ruleNoBatchUseAfterCommit(c *Check, p *Prog, rule string, pkgPrefix string) {
+	c.Doc(rule, "TS: on no path is a datastore batch written or committed again after its Commit without the batch having been obtained anew in between (a batch is single-use: backends differ in what they do with a finished batch, the node's own refuses it).")
+	n := 0
+	for _, fn := range p.Funcs {
+		pk := fnPkg(fn)
+		if pk == nil || !strings.HasPrefix(pk.Pkg.Path(), pkgPrefix) || fn.Blocks == nil {
+			continue
+		}
+		hasBatch := false
+		for _, b := range fn.Blocks {
+			for _, in := range b.Instrs {
+				if ci, ok := in.(ssa.CallInstruction); ok && ci.Common().IsInvoke() && ci.Common().Method.Name() == "Batch" && strings.Contains(ci.Common().Value.Type().String(), "go-datastore") {
+					hasBatch = true
+				}
+			}
+		}
+		if !hasBatch {
+			continue
+		}
+		g := BuildECFG(p, fn, ExpandOpts{MaxDepth: 0})
+		c.NoteGraph(g)
+		recvOf := func(x *Node) ssa.Value {
+			cc := CallCommonOf(x)
+			if cc == nil || !cc.IsInvoke() {
+				return nil
+			}
+			return cc.Value
+		}
+		isBatchVal := func(v ssa.Value) bool {
+			return v != nil && strings.HasSuffix(v.Type().String(), "go-datastore.Batch")
+		}
+		commits := g.Select(func(x *Node) bool { return x.Kind == NInstr && dsCall(x, "Commit") && isBatchVal(recvOf(x)) })
+		for _, cm := range commits {
+			cm := cm
+			bv := recvOf(cm)
+			if _, isPhi := bv.(*ssa.Phi); isPhi {
+				continue // a variable holding now one batch, now another: not decided here
+			}
+			n++
+			def, _ := bv.(ssa.Instruction)
+			isDef := func(x *Node) bool { return def != nil && x.Kind == NInstr && x.In == def }
+			// an Extract of the Batch call: the call is the point where the batch is obtained
+			if ex, ok := bv.(*ssa.Extract); ok {
+				if call, ok := ex.Tuple.(ssa.Instruction); ok {
+					isDef = func(x *Node) bool { return x.Kind == NInstr && (x.In == call || x.In == def) }
+				}
+			}
+			isUse := func(x *Node) bool {
+				return x.Kind == NInstr && (dsCall(x, "Put") || dsCall(x, "Delete") || dsCall(x, "Commit")) && recvOf(x) == bv
+			}
+			var succ []*Node
+			for _, s := range cm.Succ {
+				succ = append(succ, s)
+			}
+			path := g.PathAvoiding(succ, isUse, isDef)
+			c.Decide(rule, fnShort(fn)+" ⟂ batch not used after its commit", fnName(fn), p.InstrPos(cm.In),
+				"after Commit the batch is not written or committed again",
+				"a datastore batch is written or committed again after its Commit (for example flushed every N entries and used on): the node's badger store refuses every write to a finished batch — the writes after the first flush are lost with nothing but a log line, while the in-memory datastore of the tests accepts them", g, path)
+		}
+	}
+	if n == 0 {
+		c.OK(rule, "no batch commit", "", "", "no function of the package commits a datastore batch", false)
+	}
+}
